@@ -115,6 +115,15 @@ func (p *Prog) Normalise() []string {
 	}
 	nz := &normaliser{p: p, known: knownFuncSet()}
 	var allNotes []string
+	// local aggregates first (one pass; the tree the rules were written for has none that qualifies)
+	nz.changed = map[*ast.File]bool{}
+	nz.sra()
+	if len(nz.changed) > 0 {
+		allNotes = append(allNotes, nz.notes...)
+		if err := nz.reparseAndCheck(); err != nil {
+			panic(normaliseFailure{err})
+		}
+	}
 	for round := 0; round < 8; round++ {
 		nz.changed = map[*ast.File]bool{}
 		nz.notes = nil
@@ -2287,4 +2296,375 @@ func (p *Prog) noteNormalised(tf *token.File, path string, newSrc []byte) {
 		}
 	}
 	p.lineMap[tf] = m
+}
+
+// ---- scalar replacement of local aggregates ---------------------------------------------------------------------
+
+// sraCandidates finds local variables of a struct type that is declared inside the function (or anonymous) and that are
+// only ever used field by field: `var p struct{ n int; items []T }` … `p.n++` … `p.items = append(p.items, x)`. Such a
+// variable is a bundle of independent locals; splitting it (p.n → pZqn, p.items → pZqitems) changes nothing and gives the
+// rules the plain locals they know how to follow. Variables whose address is taken, that are assigned or passed as a
+// whole, compared, or captured as a whole are left alone.
+func (nz *normaliser) sra() {
+	for _, rel := range sdkPkgs {
+		pk := nz.p.Pkg(rel)
+		if pk == nil {
+			continue
+		}
+		info := pk.TypesInfo
+		for _, f := range pk.Syntax {
+			for _, d := range f.Decls {
+				fd, ok := d.(*ast.FuncDecl)
+				if !ok || fd.Body == nil {
+					continue
+				}
+				if nz.sraFunc(pk, info, fd) {
+					nz.changed[f] = true
+				}
+			}
+		}
+	}
+}
+
+func (nz *normaliser) sraFunc(pk *packages.Package, info *types.Info, fd *ast.FuncDecl) bool {
+	type cand struct {
+		v      *types.Var
+		st     *types.Struct
+		decl   ast.Stmt // the DeclStmt / AssignStmt that introduces it
+		fields map[string]ast.Expr
+		ok     bool
+	}
+	cands := map[*types.Var]*cand{}
+	localStruct := func(t types.Type) *types.Struct {
+		switch x := t.(type) {
+		case *types.Struct:
+			return x
+		case *types.Named:
+			// declared inside this function
+			if x.Obj().Pos() >= fd.Body.Pos() && x.Obj().Pos() < fd.Body.End() {
+				if st, ok := x.Underlying().(*types.Struct); ok && x.NumMethods() == 0 {
+					return st
+				}
+			}
+		}
+		return nil
+	}
+	// 1. declarations
+	var visitList func(list []ast.Stmt)
+	visitList = func(list []ast.Stmt) {
+		for _, st := range list {
+			switch s := st.(type) {
+			case *ast.DeclStmt:
+				gd, ok := s.Decl.(*ast.GenDecl)
+				if !ok || gd.Tok != token.VAR || len(gd.Specs) != 1 {
+					continue
+				}
+				vs := gd.Specs[0].(*ast.ValueSpec)
+				if len(vs.Names) != 1 || len(vs.Values) > 1 {
+					continue
+				}
+				v, _ := info.Defs[vs.Names[0]].(*types.Var)
+				if v == nil {
+					continue
+				}
+				if stt := localStruct(v.Type()); stt != nil {
+					c := &cand{v: v, st: stt, decl: s, ok: true, fields: map[string]ast.Expr{}}
+					if len(vs.Values) == 1 {
+						if !sraLiteral(vs.Values[0], stt, c.fields) {
+							c.ok = false
+						}
+					}
+					cands[v] = c
+				}
+			case *ast.AssignStmt:
+				if s.Tok != token.DEFINE || len(s.Lhs) != 1 || len(s.Rhs) != 1 {
+					continue
+				}
+				id, ok := s.Lhs[0].(*ast.Ident)
+				if !ok {
+					continue
+				}
+				v, _ := info.Defs[id].(*types.Var)
+				if v == nil {
+					continue
+				}
+				if stt := localStruct(v.Type()); stt != nil {
+					c := &cand{v: v, st: stt, decl: s, ok: true, fields: map[string]ast.Expr{}}
+					if !sraLiteral(s.Rhs[0], stt, c.fields) {
+						c.ok = false
+					}
+					cands[v] = c
+				}
+			}
+		}
+	}
+	ast.Inspect(fd.Body, func(n ast.Node) bool {
+		switch b := n.(type) {
+		case *ast.BlockStmt:
+			visitList(b.List)
+		case *ast.CaseClause:
+			visitList(b.Body)
+		case *ast.CommClause:
+			visitList(b.Body)
+		}
+		return true
+	})
+	if len(cands) == 0 {
+		return false
+	}
+	// 2. every use must be the X of a selector that names a field (not under &)
+	var stack []ast.Node
+	ast.Inspect(fd.Body, func(n ast.Node) bool {
+		if n == nil {
+			stack = stack[:len(stack)-1]
+			return true
+		}
+		stack = append(stack, n)
+		id, ok := n.(*ast.Ident)
+		if !ok {
+			return true
+		}
+		v, _ := info.Uses[id].(*types.Var)
+		c := cands[v]
+		if c == nil {
+			return true
+		}
+		if len(stack) < 2 {
+			c.ok = false
+			return true
+		}
+		sel, isSel := stack[len(stack)-2].(*ast.SelectorExpr)
+		if !isSel || sel.X != ast.Expr(id) {
+			c.ok = false
+			return true
+		}
+		if s, ok := info.Selections[sel]; !ok || s.Kind() != types.FieldVal || len(s.Index()) != 1 {
+			c.ok = false
+			return true
+		}
+		if len(stack) >= 3 {
+			if u, ok := stack[len(stack)-3].(*ast.UnaryExpr); ok && u.Op == token.AND {
+				c.ok = false
+			}
+		}
+		return true
+	})
+	changed := false
+	for _, c := range cands {
+		if !c.ok {
+			continue
+		}
+		// field type expressions: only for struct types whose syntax we can reach (anonymous struct in the declaration, or
+		// a local type declaration); otherwise give up
+		ftypes := sraFieldTypes(info, fd, c.v)
+		if ftypes == nil {
+			continue
+		}
+		prefix := c.v.Name() + "Zq"
+		// replace the declaration by one declaration per field
+		var repl []ast.Stmt
+		// fields that are never written after their initialisation and are initialised from a variable that never
+		// changes are just another name for that variable
+		written := map[string]bool{}
+		ast.Inspect(fd.Body, func(n ast.Node) bool {
+			mark := func(e ast.Expr) {
+				if sel, ok := ast.Unparen(e).(*ast.SelectorExpr); ok {
+					if id, ok := sel.X.(*ast.Ident); ok && info.Uses[id] == types.Object(c.v) {
+						written[sel.Sel.Name] = true
+					}
+				}
+			}
+			switch x := n.(type) {
+			case *ast.AssignStmt:
+				for _, l := range x.Lhs {
+					mark(l)
+				}
+			case *ast.IncDecStmt:
+				mark(x.X)
+			case *ast.RangeStmt:
+				if x.Key != nil {
+					mark(x.Key)
+				}
+				if x.Value != nil {
+					mark(x.Value)
+				}
+			}
+			return true
+		})
+		aliasOf := map[string]string{}
+		for fn, init := range c.fields {
+			id, ok := ast.Unparen(init).(*ast.Ident)
+			if !ok || written[fn] {
+				continue
+			}
+			src, isVar := info.Uses[id].(*types.Var)
+			if !isVar || src.IsField() || src.Parent() == nil || src.Pkg() == nil || src.Parent() == src.Pkg().Scope() {
+				continue
+			}
+			nw := 0
+			for _, w := range Writes(fd.Body, true) {
+				if wid, ok := ast.Unparen(w.LHS).(*ast.Ident); ok && info.Uses[wid] == types.Object(src) {
+					nw++
+				}
+			}
+			if nw == 0 {
+				aliasOf[fn] = id.Name
+			}
+		}
+		for i := 0; i < c.st.NumFields(); i++ {
+			fn := c.st.Field(i).Name()
+			if _, isAlias := aliasOf[fn]; isAlias {
+				continue
+			}
+			name := prefix + fn
+			if init, ok := c.fields[fn]; ok && sraDefineOK(info, init, c.st.Field(i).Type()) {
+				repl = append(repl, &ast.AssignStmt{Lhs: []ast.Expr{ast.NewIdent(name)}, Tok: token.DEFINE, Rhs: []ast.Expr{init}})
+			} else {
+				spec := &ast.ValueSpec{Names: []*ast.Ident{ast.NewIdent(name)}, Type: cloneNode(ftypes[fn])}
+				if init, ok := c.fields[fn]; ok {
+					spec.Values = []ast.Expr{init}
+				}
+				repl = append(repl, &ast.DeclStmt{Decl: &ast.GenDecl{Tok: token.VAR, Specs: []ast.Spec{spec}}})
+			}
+			repl = append(repl, &ast.AssignStmt{Lhs: []ast.Expr{ast.NewIdent("_")}, Tok: token.ASSIGN, Rhs: []ast.Expr{ast.NewIdent(name)}})
+		}
+		replaced := false
+		ast.Inspect(fd.Body, func(n ast.Node) bool {
+			swap := func(list []ast.Stmt) []ast.Stmt {
+				for i, st := range list {
+					if st == c.decl {
+						out := append([]ast.Stmt(nil), list[:i]...)
+						out = append(out, repl...)
+						replaced = true
+						return append(out, list[i+1:]...)
+					}
+				}
+				return list
+			}
+			switch b := n.(type) {
+			case *ast.BlockStmt:
+				b.List = swap(b.List)
+			case *ast.CaseClause:
+				b.Body = swap(b.Body)
+			case *ast.CommClause:
+				b.Body = swap(b.Body)
+			}
+			return !replaced
+		})
+		if !replaced {
+			continue
+		}
+		replaceExprs(fd.Body, func(e ast.Expr) ast.Expr {
+			sel, ok := e.(*ast.SelectorExpr)
+			if !ok {
+				return nil
+			}
+			id, ok := sel.X.(*ast.Ident)
+			if !ok || info.Uses[id] != types.Object(c.v) {
+				return nil
+			}
+			if a, isAlias := aliasOf[sel.Sel.Name]; isAlias {
+				return ast.NewIdent(a)
+			}
+			return ast.NewIdent(prefix + sel.Sel.Name)
+		})
+		changed = true
+		nz.notes = append(nz.notes, fmt.Sprintf("local aggregate %s of %s split into its fields", c.v.Name(), fd.Name.Name))
+	}
+	return changed
+}
+
+// sraDefineOK: `name := init` declares a variable of exactly the field's type.
+func sraDefineOK(info *types.Info, init ast.Expr, ft types.Type) bool {
+	tv, ok := info.Types[init]
+	if !ok || tv.Type == nil {
+		return false
+	}
+	if tv.Value != nil {
+		// a constant takes its default type in a short variable declaration
+		if b, isB := ft.(*types.Basic); isB {
+			switch b.Kind() {
+			case types.Int, types.String, types.Bool, types.Float64:
+				return types.Identical(tv.Type, ft)
+			}
+		}
+		return false
+	}
+	if tv.IsNil() {
+		return false
+	}
+	return types.Identical(tv.Type, ft)
+}
+
+// sraLiteral: e is a composite literal of the struct with keyed (or no) elements; the field initialisers are collected.
+func sraLiteral(e ast.Expr, st *types.Struct, out map[string]ast.Expr) bool {
+	cl, ok := ast.Unparen(e).(*ast.CompositeLit)
+	if !ok {
+		return false
+	}
+	for i, el := range cl.Elts {
+		kv, ok := el.(*ast.KeyValueExpr)
+		if !ok {
+			// positional literal: all fields, in order
+			if len(cl.Elts) != st.NumFields() {
+				return false
+			}
+			out[st.Field(i).Name()] = el
+			continue
+		}
+		k, ok := kv.Key.(*ast.Ident)
+		if !ok {
+			return false
+		}
+		out[k.Name] = kv.Value
+	}
+	return true
+}
+
+// sraFieldTypes returns the type expression of each field of v's struct type, from the syntax of the anonymous struct
+// in v's declaration or of the local type declaration.
+func sraFieldTypes(info *types.Info, fd *ast.FuncDecl, v *types.Var) map[string]ast.Expr {
+	var stx *ast.StructType
+	ast.Inspect(fd.Body, func(n ast.Node) bool {
+		switch x := n.(type) {
+		case *ast.TypeSpec:
+			if tn, ok := info.Defs[x.Name].(*types.TypeName); ok && types.Identical(tn.Type(), v.Type()) {
+				stx, _ = x.Type.(*ast.StructType)
+			}
+		case *ast.ValueSpec:
+			if len(x.Names) == 1 && info.Defs[x.Names[0]] == types.Object(v) {
+				if s, ok := x.Type.(*ast.StructType); ok {
+					stx = s
+				}
+				if len(x.Values) == 1 {
+					if cl, ok := ast.Unparen(x.Values[0]).(*ast.CompositeLit); ok {
+						if s, ok := cl.Type.(*ast.StructType); ok {
+							stx = s
+						}
+					}
+				}
+			}
+		case *ast.AssignStmt:
+			if len(x.Lhs) == 1 && len(x.Rhs) == 1 {
+				if id, ok := x.Lhs[0].(*ast.Ident); ok && info.Defs[id] == types.Object(v) {
+					if cl, ok := ast.Unparen(x.Rhs[0]).(*ast.CompositeLit); ok {
+						if s, ok := cl.Type.(*ast.StructType); ok {
+							stx = s
+						}
+					}
+				}
+			}
+		}
+		return true
+	})
+	if stx == nil {
+		return nil
+	}
+	out := map[string]ast.Expr{}
+	for _, fld := range stx.Fields.List {
+		for _, nm := range fld.Names {
+			out[nm.Name] = fld.Type
+		}
+	}
+	return out
 }
